@@ -394,6 +394,296 @@ def order_part(check):
             check.known("renamed-types-not-ordered", {"lang": "python", "witness": "struct T1 { f0: T0 } with #[serde(rename = \"R0\")] struct T0 is emitted before R0"})
 
 
+# ----------------------------------------------------------------------------- the mix of variant kinds inside tagged enums
+
+ALL_LANGS = ORDER_LANGS + ["scala"]           # Scala writes consts, aliases, structs, enums in parse order: only "exactly once" is demanded
+DEF_RX_SCALA = r"^(?:case class|class|sealed trait|type) (\w+)\b"
+VM_BEFORE, VM_MID, VM_AFTER = ["Aa", "Bb", "Cc"], ["Kk", "Mm", "Pp"], ["Xx", "Yy", "Zz"]
+VM_VARIANT_WORDS = ["Idle", "Round", "Boxed", "Moved", "Closed", "Pressed", "Empty", "Filled", "Alpha", "Omega", "Left", "Right"]
+VM_FIELD_WORDS = ["sides", "label", "inner", "items", "extra", "first", "second"]
+VM_WRAPS = ["field"] * 4 + ["vec", "vec", "option", "option", "hashmap-value", "array", "slice", "box", "option-vec-map", "hashmap-key-nested"]
+VM_PLAIN = [t_path("String"), t_path("u32"), t_path("bool"), t_path("Vec", [t_path("String")]), t_path("Option", [t_path("u8")])]
+VM_LAYOUTS = ["unit-first", "unit-middle", "unit-last", "no-unit", "units-around", "free"]
+VM_SKIPS = [m_list("typeshare", [m_path("skip")]), m_list("serde", [m_path("skip")])]
+
+
+def vm_how(wrap):
+    return "directly" if wrap == "field" else "through " + wrap
+
+
+class VariantMix:
+    """one program: tagged (serde tag/content) enums whose variants are drawn kind by kind - unit, newtype, struct variant,
+    payload variants without a reference, skipped variants of every kind - with a reference to another definition of the file
+    hanging off each payload position; the things referred to are structs, unit enums, tagged enums and aliases whose names sort
+    before or after the enum's; further items (aliases, alias chains, structs, tagged enums) refer to the enum and so pull it
+    forward in the output.  `edges` lists every live reference (user, used, description); acyclic by construction unless
+    `recursive` (one enum then also holds itself in a Box)."""
+
+    def __init__(self, rng, thorough):
+        self.rng, self.thorough = rng, thorough
+        self.items, self.names, self.kinds, self.edges, self.layouts = [], [], [], [], []
+        self.ts = [m_path("typeshare")]
+        self.recursive = rng.random() < 0.08
+        self.ghost_used = False
+        focus = self.enum("mid", 0, layout=rng.choice(VM_LAYOUTS[:5]), recursive=self.recursive)
+        self.focus = focus
+        for _ in range(rng.choice([0, 1, 1, 1, 2])):
+            self.puller(focus)
+        rng.shuffle(self.items)
+
+    # -- names: an item is `<prefix><running number>`; the prefix decides where it sorts among the items of its kind
+    def name(self, where):
+        pool = {"before": VM_BEFORE, "mid": VM_MID, "after": VM_AFTER, "any": VM_BEFORE + VM_MID + VM_AFTER}[where]
+        n = "%s%d" % (self.rng.choice(pool), len(self.names))
+        self.names.append(n)
+        self.kinds.append(None)
+        return len(self.names) - 1
+
+    def add(self, i, kind, item):
+        self.kinds[i] = kind
+        self.items.append(item)
+        return i
+
+    def target(self, depth):
+        """something to refer to: an earlier leaf of the program (diamonds) or a new definition"""
+        rng = self.rng
+        leaves = [i for i, k in enumerate(self.kinds) if k in ("struct-leaf", "unit-enum", "alias-leaf")]
+        if leaves and (rng.random() < 0.25 or len(self.names) >= 14):
+            return rng.choice(leaves)
+        if len(self.names) >= 14:
+            depth = 2
+        where = rng.choice(["before", "after", "after", "any"])
+        kind = rng.choice(["struct", "struct", "unit-enum", "tagged-enum", "alias-leaf", "alias"])
+        if depth >= 2 and kind in ("tagged-enum", "alias"):
+            kind = rng.choice(["struct", "unit-enum", "alias-leaf"])
+        if kind == "tagged-enum":
+            return self.enum(where, depth + 1, layout=rng.choice(VM_LAYOUTS))
+        i = self.name(where)
+        if kind == "unit-enum":
+            vs = [{"attrs": [], "ident": w, "fields": ("unit",)} for w in rng.sample(VM_VARIANT_WORDS, rng.randint(1, 3))]
+            return self.add(i, "unit-enum", {"kind": "enum", "attrs": list(self.ts), "ident": self.names[i], "generics": [], "variants": vs})
+        if kind == "alias-leaf":
+            return self.add(i, "alias-leaf", {"kind": "alias", "attrs": list(self.ts), "ident": self.names[i], "generics": [], "ty": rng.choice(VM_PLAIN[:2])})
+        if kind == "alias":
+            j, w = self.target(depth + 1), rng.choice(["field", "vec", "option"])
+            self.edges.append((i, j, "alias target (%s)" % vm_how(w)))
+            return self.add(i, "alias", {"kind": "alias", "attrs": list(self.ts), "ident": self.names[i], "generics": [], "ty": ref_type(w, self.names[j])})
+        fs = [field([], "plain", rng.choice(VM_PLAIN))]
+        leaf = True
+        if depth < 2 and rng.random() < 0.4:
+            j, w = self.target(depth + 1), rng.choice(VM_WRAPS)
+            self.edges.append((i, j, "struct field (%s)" % vm_how(w)))
+            fs.insert(rng.randint(0, 1), field([], "deeper", ref_type(w, self.names[j])))
+            leaf = False
+        return self.add(i, "struct-leaf" if leaf else "struct", {"kind": "struct", "attrs": list(self.ts), "ident": self.names[i], "generics": [], "fields": ("named", fs)})
+
+    def skipped_type(self):
+        """the payload of a skipped variant / field: anything - a definition of the file (no order is demanded), a type that
+        exists nowhere, a type no back end supports"""
+        rng = self.rng
+        r = rng.random()
+        if r < 0.4 and any(self.kinds):
+            return t_path(rng.choice([n for n, k in zip(self.names, self.kinds) if k]))
+        if r < 0.7:
+            return t_path("Ghost", [t_path("u64")])
+        return rng.choice(VM_PLAIN)
+
+    def enum(self, where, depth, layout, must_refer=None, recursive=False):
+        """a tagged enum; `layout` says where its unit variants stand; `must_refer`: a definition one of its payloads refers to"""
+        rng = self.rng
+        i = self.name(where)
+        npay = rng.randint(1, 3 if not self.thorough else 4)
+        pay = [rng.choice(["newtype", "newtype", "struct", "struct", "newtype-plain", "struct-plain"]) for _ in range(npay)]
+        if not any(k in ("newtype", "struct") for k in pay):
+            pay[rng.randrange(npay)] = rng.choice(["newtype", "struct"])
+        u = lambda: ["unit"] * rng.randint(1, 2)
+        if layout == "unit-first":
+            kinds = u() + pay
+        elif layout == "unit-last":
+            kinds = pay + u()
+        elif layout == "no-unit":
+            kinds = pay
+        elif layout == "units-around":
+            kinds = u() + pay + u()
+        elif layout == "unit-middle":
+            if npay == 1:
+                pay.append(rng.choice(["newtype", "struct"]))
+            cut = rng.randint(1, len(pay) - 1)
+            kinds = pay[:cut] + u() + pay[cut:]
+        else:
+            kinds = pay + ["unit"] * rng.randint(0, 2)
+            rng.shuffle(kinds)
+        # skipped variants (unit, newtype, several unnamed fields, struct) anywhere in between
+        for _ in range(rng.choice([0, 0, 1, 1, 2])):
+            kinds.insert(rng.randint(0, len(kinds)), rng.choice(["skipped-unit", "skipped-newtype", "skipped-tuple", "skipped-struct"]))
+        words = rng.sample(VM_VARIANT_WORDS, len(kinds))
+        variants, shape = [], []
+        forced = must_refer
+        slots = [k for k, kd in enumerate(kinds) if kd in ("newtype", "struct")]
+        forced_at = rng.choice(slots) if forced is not None else None
+
+        def reference(k, what):
+            nonlocal forced
+            w = rng.choice(VM_WRAPS)
+            if forced is not None and k == forced_at:
+                j, forced = forced, None
+            else:
+                j = self.target(depth)
+            self.edges.append((i, j, "%s of variant #%d `%s` (%s; declared after %d unit, %d payload and %d skipped variant(s))"
+                               % (what, k + 1, words[k], vm_how(w), shape.count("unit"),
+                                  sum(s != "unit" and not s.startswith("skipped") for s in shape), sum(s.startswith("skipped") for s in shape))))
+            return ref_type(w, self.names[j])
+        for k, (kd, word) in enumerate(zip(kinds, words)):
+            attrs = [rng.choice(VM_SKIPS)] if kd.startswith("skipped") else []
+            if kd in ("unit", "skipped-unit"):
+                fs = ("unit",)
+            elif kd == "newtype":
+                fs = ("unnamed", [field([], None, reference(k, "payload"))])
+            elif kd == "newtype-plain":
+                fs = ("unnamed", [field([], None, rng.choice(VM_PLAIN))])
+            elif kd == "skipped-newtype":
+                fs = ("unnamed", [field([], None, self.skipped_type())])
+            elif kd == "skipped-tuple":
+                fs = ("unnamed", [field([], None, self.skipped_type()), field([], None, t_path("u8"))])
+            elif kd == "skipped-struct":
+                fs = ("named", [field([], "ghost", self.skipped_type())])
+            else:
+                fnames = rng.sample(VM_FIELD_WORDS, rng.randint(1, 3))
+                refs = set(rng.sample(range(len(fnames)), rng.randint(1, len(fnames)))) if kd == "struct" else set()
+                fl = [field([], fn, reference(k, "field `%s`" % fn) if x in refs else rng.choice(VM_PLAIN)) for x, fn in enumerate(fnames)]
+                if rng.random() < 0.25:
+                    fl.insert(rng.randint(0, len(fl)), field([rng.choice(VM_SKIPS)], "hidden", self.skipped_type()))
+                fs = ("named", fl)
+            variants.append({"attrs": attrs, "ident": word, "fields": fs})
+            shape.append(kd)
+        if recursive:
+            variants.insert(rng.randint(0, len(variants)), {"attrs": [], "ident": "Again", "fields": ("unnamed", [field([], None, t_path("Box", [t_path(self.names[i])]))])})
+            shape.append("newtype-self")
+        attrs = list(self.ts) + [m_list("serde", [m_nv("tag", lit_s("t")), m_nv("content", lit_s("c"))])]
+        self.layouts.append((layout, tuple(shape)))
+        return self.add(i, "tagged-enum", {"kind": "enum", "attrs": attrs, "ident": self.names[i], "generics": [], "variants": variants})
+
+    def puller(self, e):
+        """an item that refers to the enum `e` (and is therefore written after it, wherever its own kind and name would put it)"""
+        rng = self.rng
+        kind = rng.choice(["alias", "alias", "alias-chain", "struct", "tagged-enum"])
+        where = rng.choice(["before", "after", "any"])
+        if kind == "tagged-enum":
+            return self.enum(where, 1, layout=rng.choice(VM_LAYOUTS), must_refer=e)
+        i = self.name(where)
+        w = rng.choice(["field", "vec", "vec", "option", "hashmap-value", "array"])
+        self.edges.append((i, e, "%s (%s)" % ("struct field" if kind == "struct" else "alias target", vm_how(w))))
+        if kind == "struct":
+            fs = [field([], "plain", rng.choice(VM_PLAIN)), field([], "all", ref_type(w, self.names[e]))]
+            rng.shuffle(fs)
+            return self.add(i, "struct", {"kind": "struct", "attrs": list(self.ts), "ident": self.names[i], "generics": [], "fields": ("named", fs)})
+        self.add(i, "alias", {"kind": "alias", "attrs": list(self.ts), "ident": self.names[i], "generics": [], "ty": ref_type(w, self.names[e])})
+        if kind == "alias-chain":
+            for _ in range(rng.randint(1, 2)):
+                j, i = i, self.name(rng.choice(["before", "after"]))
+                w = rng.choice(["field", "vec", "option"])
+                self.edges.append((i, j, "alias target (%s)" % vm_how(w)))
+                self.add(i, "alias", {"kind": "alias", "attrs": list(self.ts), "ident": self.names[i], "generics": [], "ty": ref_type(w, self.names[j])})
+        return i
+
+    def file(self):
+        return {"attrs": [], "items": self.items}
+
+    def describe(self, i):
+        it = next(x for x in self.items if x["ident"] == self.names[i])
+        if self.kinds[i] != "tagged-enum":
+            return "%s `%s`" % (self.kinds[i].replace("-leaf", ""), self.names[i])
+        vs = []
+        for v in it["variants"]:
+            f = v["fields"]
+            body = "" if f[0] == "unit" else "(%s)" % ", ".join(render_type(x["ty"]) for x in f[1]) if f[0] == "unnamed" else \
+                " { %s }" % ", ".join(("skipped " if x["attrs"] else "") + "%s: %s" % (x["ident"], render_type(x["ty"])) for x in f[1])
+            vs.append(("skipped " if v["attrs"] else "") + v["ident"] + body)
+        return "tagged enum `%s` { %s }" % (self.names[i], ", ".join(vs))
+
+
+def definition_counts(lang, text):
+    """name -> (how many times it is defined at top level, position of the first definition among the file's definitions)"""
+    out = {}
+    for k, m in enumerate(re.finditer(DEF_RX_SCALA if lang == "scala" else DEF_RX[lang], text, re.M)):
+        name = next(g for g in m.groups() if g)
+        n, first = out.get(name, (0, k))
+        out[name] = (n + 1, first)
+    return out
+
+
+def variant_mix_part(check):
+    """dimension: the order and mix of variant kinds inside tagged enums.  Every program is built around a tagged enum whose unit
+    variants come first / in the middle / last / on both sides / not at all (further enums of the program: any order), whose
+    payload variants are newtype or struct variants with or without references, with skipped variants (unit, newtype, several
+    unnamed fields, struct) and skipped fields in between; a reference to another definition of the file hangs off every live
+    payload position (directly, through Vec / Option / HashMap / array / slice / Box).  What is referred to: structs, unit
+    enums, tagged enums (again with mixed variants) and aliases, two levels deep, with names that sort before and after the
+    enum's; aliases, alias chains, structs and other tagged enums refer to the enum and pull it forward.  All six languages.
+    Demanded of the implementation's output: every definition of the program is written exactly once, and (TS / Python /
+    Kotlin / Swift / Go, acyclic programs - all but the few where an enum boxes itself) after every definition it refers to
+    through a live variant, field or alias target; skipped variants and fields demand nothing.  Byte-exact against the model."""
+    rng = check.rng
+    ncases = 1500 if check.thorough else 300
+    g = Gen(rng)
+    mreqs, rreqs, meta, names = [], [], [], set()
+    for c in range(ncases):
+        p = VariantMix(rng, check.thorough)
+        f = p.file()
+        names |= l2.names_of(f)
+        for lay, shape in p.layouts:
+            check.count("variant-mix-layout-" + lay)
+            live = [s for s in shape if not s.startswith("skipped")]
+            if "unit" in live and any(s in ("newtype", "struct") for s in live[live.index("unit"):]):
+                check.count("variant-mix-reference-after-unit-variant")
+            if any(s.startswith("skipped") for s in shape):
+                check.count("variant-mix-enum-with-skipped-variant")
+        for i, j, _ in p.edges:
+            check.count("variant-mix-edge %s -> %s (%s name)" % (p.kinds[i].replace("-leaf", ""), p.kinds[j].replace("-leaf", ""),
+                                                                 "later" if p.names[j] > p.names[i] else "earlier"))
+        check.count("variant-mix-program-" + ("recursive" if p.recursive else "acyclic"))
+        for lang in ALL_LANGS:
+            cfg = {"package": "proto" if lang == "go" else "com.example", "type_mappings": {}}
+            m, r, texts = l2.requests(lang, cfg, [{"crate": "", "file_name": "o", "path": "src/lib.rs", "file": f}], g)
+            mreqs.append(m); rreqs.append(r); meta.append((lang, p, texts[0]))
+    mans = [l2.norm(a) for a in model(mreqs, names=names)]
+    rans = [l2.norm(a) for a in runner(rreqs)]
+    mismatch = None
+    for (lang, p, text), ma, ra, rq in zip(meta, mans, rans, rreqs):
+        check.saw(("variant-mix", lang, text), nontrivial=True)
+        if "ok" not in ra:
+            check.count("variant-mix-%s-no-output" % lang)
+        else:
+            check.count("variant-mix-%s-generated" % lang)
+            out = ra["ok"][""]
+            defs = definition_counts(lang, out)
+            case = {"lang": lang, "source": text, "references": [(p.names[i], p.names[j], d) for i, j, d in p.edges]}
+            wrong = [(n, defs.get(n, (0, 0))[0]) for n in p.names if defs.get(n, (0, 0))[0] != 1]
+            if wrong:
+                check.violation("%s, tagged enums with mixed variant kinds: %s (every definition of the file must be written exactly once)"
+                                % (lang, "; ".join("`%s` is defined %d time(s)" % w for w in wrong)),
+                                case=case, impl=out, model=ma.get("ok"), failing_input=True)
+                return
+            if lang != "scala" and not p.recursive:
+                bad = [(i, j, d) for i, j, d in p.edges if defs[p.names[j]][1] > defs[p.names[i]][1]]
+                if bad:
+                    i, j, d = bad[0]
+                    check.violation("%s, tagged enums with mixed variant kinds: %s is written before %s, which it refers to in the %s"
+                                    "%s" % (lang, p.describe(i), p.describe(j), d,
+                                            "" if len(bad) == 1 else " (and %d more mis-ordered reference(s))" % (len(bad) - 1)),
+                                    case=dict(case, misordered=[(p.names[i], p.names[j], d) for i, j, d in bad],
+                                              written_order=[n for n, _ in sorted(defs.items(), key=lambda kv: kv[1][1]) if n in p.names]),
+                                    impl=out, model=ma.get("ok"), failing_input=True)
+                    return
+        if ma != ra and mismatch is None:
+            mismatch = dict(what="%s generation differs from the model on a program of tagged enums with mixed variant kinds: %s" % (
+                lang, l2.text_diff(ma["ok"][""], ra["ok"][""]) if "ok" in ma and "ok" in ra else (ma, ra)),
+                case={"lang": lang, "source": text, "request": rq}, impl=ra, model=ma)
+    if mismatch:
+        check.violation(mismatch["what"], case=mismatch["case"], impl=mismatch["impl"], model=mismatch["model"], failing_input=False,
+                        broken="correspondence L2 topsort/get_dependencies on enum variants (theorems TsV.C11.*)")
+
+
 _run_graphs = run
 
 
@@ -402,9 +692,16 @@ def run(check):
     if not check.has_failing():
         order_part(check)
     if not check.has_failing():
+        variant_mix_part(check)
+    if not check.has_failing():
         multi_crate_part(check)
     check.rule += ("; end to end: programs of 2-8 (thorough 10) items whose reference graph (DAGs and cyclic) is placed at 13 kinds of "
                    "positions (field, Vec, Option, HashMap value, array, slice, generic argument, nested generic argument, Box, tuple "
                    "variant, struct-variant field, alias target), random source order, optional serde renames, through "
                    "parse->reconcile->generate for TS/Python/Kotlin/Swift/Go: definition order extracted from the real output must "
-                   "be a permutation and, for DAGs, topological; byte-exact against the model")
+                   "be a permutation and, for DAGs, topological; byte-exact against the model; tagged enums with every order and mix "
+                   "of variant kinds (unit variants first / in the middle / last / around / absent, newtype and struct variants with "
+                   "and without references, skipped variants and fields in between), references from each payload position to "
+                   "structs, unit enums, tagged enums and aliases named before and after the enum, pulled forward by aliases, alias "
+                   "chains, structs and other enums, six languages: each definition exactly once and (all but Scala, acyclic "
+                   "programs) after what it refers to")
